@@ -66,3 +66,21 @@ package vgirpc
 //@   at call setTimeField#1 assert [date32] nsOf(arg3) == date32At(embedded(embedded(c, "dateArray"), "numericArray"), idx) * 86400000000000
 //@   at call setTimeField#3 assert [time64] 0 <= time64At(embedded(embedded(c, "timeArray"), "numericArray"), idx) && time64At(embedded(embedded(c, "timeArray"), "numericArray"), idx) < 86400000000 ==>
 //@       nsOf(arg3) == time64At(embedded(embedded(c, "timeArray"), "numericArray"), idx) * 1000
+
+// asString (the string / enum / large-string / decimal arms of both serializers): a value whose
+// underlying kind is string is written as that string itself — its String() method, if it has
+// one, is consulted only for values that are not strings (a named string type with a display
+// form round-trips as its value, not as its display form).
+//
+//@ func asString
+//@   property C08
+//@   pathflag validKnown
+//@   pathflag isValid
+//@   pathflag kindKnown
+//@   pathflag isStr
+//@   at call (reflect.Value).IsValid mark validKnown
+//@   at call (reflect.Value).IsValid setflag isValid result
+//@   at call (reflect.Value).Kind mark kindKnown
+//@   at call (reflect.Value).Kind setflag isStr result == 24
+//@   at call fmt.Stringer.String assert [rawfirst] (validKnown && !isValid) || (kindKnown && !isStr)
+//@   at call (reflect.Value).String assert [ownvalue] kindKnown && isStr
